@@ -482,6 +482,12 @@ fn run_c20(out: &mut Out, rng: &mut Rng, count: usize) {
     "for (let idx = 0; idx < 3; idx++) { f(idx); }\nfor (const idx of xs) { }",
     "let cnt = 0;\nfunction inc() { cnt++; }\nfunction other() { let cnt = 1; cnt = 2; return cnt; }\ninc(); other();",
     "type Foo = number;\nfunction f(a: Foo) { type Foo = string; let b: Foo = \"\"; return [a, b]; }\nf(1);",
+    // a free (undeclared) name, and later a local binding of the same spelling in a sibling scope
+    "function early() { return item; }\nfunction later() { let item = 1; item = item + 1; return item; }\nearly(); later();",
+    "log(entry);\nfunction g(entry) { return [entry, entry.x]; }\ng(1);",
+    "const r = () => missing;\ntry { f(); } catch (missing) { g(missing, missing); }\nr();",
+    "use(Widget);\n{ class Widget {} new Widget(); f(Widget); }",
+    "f(total);\nfor (const total of xs) { g(total); }\nfunction h() { var total = 0; total++; return total; }\nh();",
   ];
   for case_no in 0..count {
     let mut crng = rng.fork();
